@@ -24,6 +24,8 @@ type C19Plan struct {
 	// SpillCut: after feeding, spill file number File (mod count) is cut to At bytes (mod size), moved off
 	// row boundaries: a damaged temp file between spilling and merging
 	SpillCut *SpillCut `json:"spill_cut,omitempty"`
+	// FsizeLimit > 0: while the sorter is fed no file may grow beyond that many bytes (disk full / quota)
+	FsizeLimit uint64 `json:"fsize_limit,omitempty"`
 }
 
 type SpillCut struct {
@@ -86,7 +88,9 @@ func init() {
 			r := NewRand(seed)
 			tb := GenTable(r.Sub("data"), GenOpts{MaxRows: 700, AllowNoPK: true, BigCells: r.Chance(0.1)})
 			p := C19Plan{Table: tb, RunSize: Pick(r, []uint64{0, 1, 1, 16, 64, 300, 4096}), Feed: Pick(r, []string{"csv", "rows", "bare"})}
-			if p.RunSize > 0 && r.Chance(0.15) {
+			if p.RunSize > 0 && r.Chance(0.1) {
+				p.FsizeLimit = Pick(r, []uint64{1, 7, 60, 300, 1000, 4000, 20000})
+			} else if p.RunSize > 0 && r.Chance(0.15) {
 				p.SpillCut = &SpillCut{File: r.Intn(8), At: r.Intn(100000)}
 				if r.Chance(0.5) {
 					p.SpillCut.At = r.Intn(12) // inside the first row header / first cells
@@ -235,8 +239,29 @@ func execC19(t *testing.T, raw json.RawMessage, res *Result) {
 	}
 
 	// blocks output
-	s1, err := feedSorter(&p, cols, rows, pkNames, pk)
+	var s1 *sorter.Sorter
+	feed1 := func() { s1, err = feedSorter(&p, cols, rows, pkNames, pk) }
+	fsArmed := false
+	if p.FsizeLimit > 0 {
+		fsArmed = withFsizeLimit(p.FsizeLimit, feed1)
+	} else {
+		feed1()
+	}
 	if err != nil {
+		if fsArmed && isFileTooLarge(err) {
+			// a spill file could not be written in full: the error is the right answer; the
+			// sorter must still clean up after itself
+			res.fault("spill_write_error", 1)
+			if s1 != nil {
+				s1.Close()
+			}
+			if n := countTmp(); n != 0 {
+				res.Violate("spill-file-left", "%d files left in the temp dir after a failed spill (file size limit %d) and Close", n, p.FsizeLimit)
+				return
+			}
+			res.Nontrivial = true
+			return
+		}
 		res.Violate("sorter-error", "feeding sorter: %v", err)
 		return
 	}
